@@ -21,7 +21,19 @@ var objSeq atomic.Int64
 func nextID() int64 { return objSeq.Add(1) }
 
 // ResetIDs restarts object numbering (called before building each fresh object graph so that names are stable).
-func ResetIDs() { objSeq.Store(0) }
+func ResetIDs() { objSeq.Store(0); heldModel.Store(0) }
+
+// Sequential, when set, declares that code running WITHOUT a scheduler is single-threaded (set-up, sequential reference
+// runs, probes): an acquisition that would block there can never succeed - the lock was leaked by an earlier call - and
+// panics with LeakMessage instead of hanging the checker. The free-running -race pass clears it.
+var Sequential atomic.Bool
+
+const LeakMessage = "vsync: lock still held in a sequential phase (leaked by an earlier call): "
+
+// heldModel counts locks held in the model (under a scheduler); HeldModel()>0 at quiescence means a lock was leaked.
+var heldModel atomic.Int64
+
+func HeldModel() int { return int(heldModel.Load()) }
 
 // Mutex
 type Mutex struct {
@@ -41,6 +53,12 @@ func (m *Mutex) name() string {
 func (m *Mutex) Lock() {
 	s := sched.Active()
 	if s == nil {
+		if Sequential.Load() {
+			if !m.real.TryLock() {
+				panic(LeakMessage + m.name())
+			}
+			return
+		}
 		m.real.Lock()
 		return
 	}
@@ -49,6 +67,7 @@ func (m *Mutex) Lock() {
 	}
 	s.Point("lock", m.name(), func() bool { return !m.held })
 	m.held, m.owner = true, s.Current()
+	heldModel.Add(1)
 }
 
 func (m *Mutex) TryLock() bool {
@@ -64,6 +83,7 @@ func (m *Mutex) TryLock() bool {
 		return false
 	}
 	m.held, m.owner = true, s.Current()
+	heldModel.Add(1)
 	return true
 }
 
@@ -80,6 +100,7 @@ func (m *Mutex) Unlock() {
 		panic("vsync: unlock of unlocked mutex")
 	}
 	m.held = false
+	heldModel.Add(-1)
 }
 
 // Held reports the model state (for state keys / monitors).
@@ -105,6 +126,12 @@ func (m *RWMutex) name() string {
 func (m *RWMutex) Lock() {
 	s := sched.Active()
 	if s == nil {
+		if Sequential.Load() {
+			if !m.real.TryLock() {
+				panic(LeakMessage + m.name())
+			}
+			return
+		}
 		m.real.Lock()
 		return
 	}
@@ -113,6 +140,7 @@ func (m *RWMutex) Lock() {
 	}
 	s.Point("wlock", m.name(), func() bool { return !m.writer && m.readers == 0 })
 	m.writer, m.wowner = true, s.Current()
+	heldModel.Add(1)
 }
 
 func (m *RWMutex) Unlock() {
@@ -128,11 +156,18 @@ func (m *RWMutex) Unlock() {
 		panic("vsync: unlock of unlocked rwmutex")
 	}
 	m.writer = false
+	heldModel.Add(-1)
 }
 
 func (m *RWMutex) RLock() {
 	s := sched.Active()
 	if s == nil {
+		if Sequential.Load() {
+			if !m.real.TryRLock() {
+				panic(LeakMessage + m.name())
+			}
+			return
+		}
 		m.real.RLock()
 		return
 	}
@@ -141,6 +176,7 @@ func (m *RWMutex) RLock() {
 	}
 	s.Point("rlock", m.name(), func() bool { return !m.writer })
 	m.readers++
+	heldModel.Add(1)
 }
 
 func (m *RWMutex) RUnlock() {
@@ -156,6 +192,7 @@ func (m *RWMutex) RUnlock() {
 		panic("vsync: runlock of unlocked rwmutex")
 	}
 	m.readers--
+	heldModel.Add(-1)
 }
 
 func (m *RWMutex) RLocker() Locker { return (*rlocker)(m) }
